@@ -144,7 +144,24 @@ func H_C15_history() {
 	for s := 0; s < k; s++ {
 		p := "op" + itoa(s)
 		tag := "after " + p
-		switch verif.Choice(p+".kind", 6) {
+		switch verif.Choice(p+".kind", 8) {
+		case 6: // the config merged into itself (all policies): the operands are the config and the config
+			pol := verif.Choice(p+".pol", nPolicies)
+			verif.Assert(c.Merge(c, polOpts(pol)...) == nil, "C15/self merge accepted")
+			model = mergeVal(constPol(pol), nil, model, model.clone())
+			verif.Reach("self merge")
+		case 7: // a child merged into the root, and the root merged into a child
+			h, err := c.Child("l", -1)
+			verif.Assume(err == nil)
+			pol := []int{polAppend, polPrepend, polDefault}[verif.Choice(p+".pol", 3)]
+			l := model.get("l")
+			if verif.Choice(p+".dir", 2) == 0 {
+				verif.Assert(h.Merge(h, polOpts(pol)...) == nil, "C15/self merge of a list child accepted")
+				model.set("l", mergeVal(constPol(pol), nil, l, l.clone()))
+			} else {
+				verif.Assert(c.Merge(map[string]interface{}{"l2": h}, polOpts(pol)...) == nil, "C15/merge of an own child accepted")
+				model = mergeVal(constPol(pol), nil, model, nDict().set("l2", l.clone()))
+			}
 		case 0: // remove a list element (start / middle / end)
 			idx := verif.Choice(p+".idx", 3)
 			removed, err := c.Remove("l", idx)
